@@ -76,11 +76,12 @@ func (r *ftRole) lastState() (sm.State, bool) {
 func ftTask(name string, owner uid.ID, critical bool) (*Task, *ftRole) {
 	role := &ftRole{path: "root." + name, envId: owner, traits: Traits{Critical: critical, Timeout: "10s"}}
 	class := &taskclass.Class{}
+	cmdValue, shell := "cmd-"+name, false
 	t := &Task{
 		name: name, className: "class-" + name, hostname: "host-" + name, agentId: "agent-" + name, offerId: "offer-" + name,
 		taskId: "task-" + name, executorId: "exec-" + name,
 		status: ACTIVE, state: sm.STANDBY,
-		commandInfo:  &common.TaskCommandInfo{},
+		commandInfo:  &common.TaskCommandInfo{CommandInfo: common.CommandInfo{Value: &cmdValue, Shell: &shell}},
 		GetTaskClass: func() *taskclass.Class { return class },
 		localBindMap: channel.BindMap{},
 		properties:   gera.MakeMap[string, string](),
